@@ -208,6 +208,22 @@ impl Check for C18 {
             Op::new("mp_println").s("log"),
         ]];
         v.push(s);
+        // a frame cut by the terminal height leaves the cursor mid-row; the next draw starts with
+        // a line feed of its own: that call can fail like any other
+        let mut s = Scenario::new("C18", "multi", 183);
+        s.set("w", 10);
+        s.set("h", 2);
+        s.set("multi", 1);
+        s.threads = vec![vec![
+            Op::new("add").n(0).n(0).n(1).n(10).n(0).n(8).s("{obs}{msg}").s("").s("").s("abcdefghijklmnopqrstuvwxyz"),
+            Op::new("tick").n(0),
+            Op::new("mp_println").s("hello"),
+            Op::new("mp_println").s("x"),
+            Op::new("mp_clear"),
+            Op::new("set_message").n(0).n(0).s("ok"),
+            Op::new("mp_println").s("y"),
+        ]];
+        v.push(s);
         v
     }
     fn gen(&self, rng: &mut Rng, tier: Tier, index: u64) -> Scenario {
@@ -227,7 +243,9 @@ impl Check for C18 {
             sc.mode = format!("{}+long", sc.mode);
         }
         sc.set("xcheck", 0);
-        sc.set("h", 30);
+        // (mostly roomy; sometimes so low that frames are cut at the terminal height)
+        let hh = *rng.pick(&[30, 30, 30, 1, 2, 3]);
+        sc.set("h", hh);
         let max = if tier == Tier::Quick { 15 } else { 30 };
         let ops = &mut sc.threads[0];
         // keep the creation op(s) and trim
